@@ -210,6 +210,67 @@ def truncateFrom (c : Cfg) (s : Top) (n0 item : Nat) : Option Top :=
     | none => none
   else some s
 
+/-! ### the `Freezer` layer with the exact read-handle LRU (round 6, second increment)
+
+The same operations with `Handle.cache` maintained as the real `LruCache` does (`openL`, `appendL`,
+`truncateL`, `retrieveCache` of `Model/Freezer.lean`, capacity `cap`).  `Freezer::open` and
+`Freezer::truncate` call `files.retrieve` for the tip block, which promotes / inserts that file's
+handle.  The `top` driver runs these; stream `top` compares `Freezer::verif_cached_ids`. -/
+
+def withCache (h : Handle) (c : List Nat) : Handle := { h with cache := c }
+
+/-- `Freezer::retrieve` with the cache it leaves -/
+def retrieveTopL (cap : Nat) (c : Cfg) (s : Top) (i : Nat) : Top × Ret :=
+  (⟨withCache s.h (retrieveCache cap s.h s.d i), s.d, s.tip⟩, retrieveRaw c s.h s.d i)
+
+/-- `Freezer::open` -/
+def openTopL (cap : Nat) (c : Cfg) (d : Disk) : Option Top :=
+  match openL cap d with
+  | none => none
+  | some (h, d') =>
+    if h.number > 1 then
+      match readBlock c h d' (h.number - 1) with
+      | some b => some ⟨withCache h (retrieveCache cap h d' (h.number - 1)), d', some b⟩
+      | none => none
+    else some ⟨h, d', none⟩
+
+/-- the freeze loop with `appendL` -/
+def freezeLoopL (cap : Nat) (c : Cfg) (get : Nat → Option Block) (stopped : Nat → Bool) :
+    (fuel : Nat) → (n : Nat) → Top → List (Nat × Nat × Nat) → Top × FreezeOut
+  | 0, _, s, acc => (s, .ok acc)
+  | fuel + 1, n, s, acc =>
+    if stopped n then (s, .ok acc)
+    else
+      match get n with
+      | none => (s, .ok acc)
+      | some b =>
+        if mismatch (s.tip.map (·.hash)) b then (s, .err)
+        else if s.h.number ≠ n then (s, .err)
+        else
+          let r := appendL cap c.max s.h s.d (stored c b)
+          freezeLoopL cap c get stopped fuel (n + 1) ⟨r.1, r.2, some b⟩ (acc ++ [(b.hash, n, b.txs)])
+
+/-- `Freezer::freeze` whose pre-lock read of `number` returned `n0` -/
+def freezeFromL (cap : Nat) (c : Cfg) (s : Top) (n0 threshold : Nat) (get : Nat → Option Block)
+    (stopped : Nat → Bool) : Top × FreezeOut :=
+  freezeLoopL cap c get stopped (threshold - n0) n0 s []
+
+def freezeL (cap : Nat) (c : Cfg) (s : Top) (threshold : Nat) (get : Nat → Option Block)
+    (stopped : Nat → Bool) : Top × FreezeOut :=
+  freezeFromL cap c s s.h.number threshold get stopped
+
+/-- `Freezer::truncate` whose guard read `n0` -/
+def truncateFromL (cap : Nat) (c : Cfg) (s : Top) (n0 item : Nat) : Option Top :=
+  if item > 0 ∧ item + 1 < n0 then
+    let r := truncateL cap s.h s.d item
+    match readBlock c r.1 r.2 item with
+    | some b => some ⟨withCache r.1 (retrieveCache cap r.1 r.2 item), r.2, some b⟩
+    | none => none
+  else some s
+
+def truncateTopL (cap : Nat) (c : Cfg) (s : Top) (item : Nat) : Option Top :=
+  truncateFromL cap c s s.h.number item
+
 /-- a crash (index file cut to `il` bytes, head data file to `fl` bytes / removed) followed by
     `Freezer::open` -/
 def crashOpen (c : Cfg) (s : Top) (il : Nat) (fl : Option Nat) : Option Top :=
